@@ -487,6 +487,185 @@ pub fn emission_collection_projects() -> Vec<Project> {
     v
 }
 
+/// The complement of `emission_collection_projects` (where every declared member is used): WELL-typed programs in
+/// which k members (k = 2..=6) of EACH kind of helper declaration the Go back end collects — tuple structs, array
+/// helpers, `Ref` helpers, and the types nested inside them — are mentioned by NO function signature and NO function
+/// body.  They are reachable only through a type definition that is still emitted: the payload of a variant nobody
+/// builds or matches, a field of a struct nobody builds, a monomorphic instance of a generic enum / struct of which
+/// only the payload-free variant is built, a struct that itself sits only behind an unused variant, definitions
+/// spread over k enums and k structs, over several files and over k packages (whole-program compile and separate
+/// build + link).  Such members are found by the passes over the *definition tables* (not by the walk over the
+/// function bodies), so their order in the output is the order in which those tables and their fields are walked.
+/// No program matches on the enums (a `match`, even `_ =>`, makes the match compiler name the payload types in a
+/// body).  Members are interleaved by kind and written in an order that is neither ascending nor descending.
+pub fn emission_definition_only_projects() -> Vec<Project> {
+    let elems: [&str; 6] = ["string", "int32", "float64", "bool", "unit", "int64"];
+    let names = ["zeta", "alpha", "mid", "beta", "omega", "gamma"];
+    let mut v = Vec::new();
+    for k in 2..=6usize {
+        let es: Vec<&str> = elems.iter().take(k).cloned().collect();
+        let ns: Vec<&str> = names.iter().take(k).cloned().collect();
+        // member i of each kind; all distinct within a kind
+        let tup = |i: usize| format!("({}, {}, int32)", es[i % k], es[(i + 1) % k]);
+        let arr = |i: usize| format!("[{}; {}]", es[i % k], i + 1);
+        let rf = |i: usize| format!("Ref[{}]", es[i % k]);
+        // nested members: every root brings inner runtime types with it
+        let nest = |i: usize| -> [String; 4] {
+            let (t, t2) = (es[i % k], es[(i + 1) % k]);
+            [
+                format!("Ref[[({t}, {t2}); {}]]", i + 2),
+                format!("(({t2}, {t}), Ref[{t2}], [{t}; {}])", i + 7),
+                format!("Vec[({t}, bool, {t2})]"),
+                format!("({t}, Ref[bool]) -> ({t2}, [{t2}; {}])", i + 13),
+            ]
+        };
+        let single = |src: String| vec![("main.gom".to_string(), src)];
+        let mut fam: Vec<(&str, Vec<(String, String)>)> = Vec::new();
+
+        // ---- payloads of variants nobody builds or matches
+        let mut variants = String::new();
+        for i in 0..k {
+            writeln!(variants, "    Tu{}({}),\n    Ar{}({}),\n    Rf{}({}),", ns[i], tup(i), ns[i], arr(i), ns[i], rf(i)).unwrap();
+        }
+        fam.push(("unused-variant-payloads", single(format!(
+            "enum Shape {{\n    Dot,\n{variants}}}\n\nfn origin() -> Shape {{\n    Shape::Dot\n}}\n\nfn main() -> unit {{\n    let s = origin();\n    let _ = s;\n    string_println(\"ok\")\n}}\n"))));
+        // the same with several payloads per variant
+        let mut variants2 = String::new();
+        for i in 0..k {
+            writeln!(variants2, "    V{}({}, {}, {}),", ns[i], rf(i), tup(k - 1 - i), arr(i)).unwrap();
+        }
+        fam.push(("unused-variant-multi-payloads", single(format!(
+            "enum Shape {{\n{variants2}    Dot,\n}}\n\nfn main() -> unit {{\n    let s = Shape::Dot;\n    let f = || s;\n    let _ = f();\n    string_println(\"ok\")\n}}\n"))));
+
+        // ---- fields of a struct nobody builds; and of a struct that sits only behind an unused variant
+        let mut fields = String::new();
+        for i in 0..k {
+            writeln!(fields, "    a_{n}: {},\n    t_{n}: {},\n    r_{n}: {},", arr(i), tup(i), rf(i), n = ns[i]).unwrap();
+        }
+        fam.push(("unbuilt-struct-fields", single(format!(
+            "struct Holder {{\n{fields}}}\n\nfn main() -> unit {{\n    string_println(\"ok\")\n}}\n"))));
+        fam.push(("struct-behind-unused-variant", single(format!(
+            "struct Holder {{\n{fields}}}\n\nenum Slot {{\n    Full(Holder),\n    Empty,\n}}\n\nfn empty() -> Slot {{\n    Slot::Empty\n}}\n\nfn main() -> unit {{\n    let s = empty();\n    let _ = s;\n    string_println(\"ok\")\n}}\n"))));
+
+        // ---- monomorphic instances of a generic enum of which only the payload-free variant is built
+        let mut slots = String::new();
+        let mut init = Vec::new();
+        for i in 0..k {
+            writeln!(slots, "    p_{n}: Opt[{}],\n    q_{n}: Opt[{}],\n    r_{n}: Opt[{}],", tup(i), arr(i), rf(i), n = ns[i]).unwrap();
+            init.push(format!("p_{n}: Opt::Nothing, q_{n}: Opt::Nothing, r_{n}: Opt::Nothing", n = ns[i]));
+        }
+        fam.push(("generic-enum-instances", single(format!(
+            "enum Opt[T] {{\n    Nothing,\n    Just(T),\n}}\n\nstruct Slots {{\n{slots}}}\n\nfn empty() -> Slots {{\n    Slots {{ {} }}\n}}\n\nfn main() -> unit {{\n    let s = empty();\n    let _ = s;\n    string_println(\"ok\")\n}}\n",
+            init.join(", ")))));
+        // generic struct instances holding generic enum instances; a generic enum with two parameters; instances made by a generic function
+        let mut guse = String::new();
+        for i in 0..k {
+            writeln!(guse, "    let c{i}: Cell[{}] = fresh({i});\n    let e{i}: Either[{}, {}] = Either::Neither;\n    let _ = (c{i}.tag, e{i});", tup(i), arr(i), rf(i)).unwrap();
+        }
+        fam.push(("generic-struct-and-fn-instances", single(format!(
+            "enum Opt[T] {{\n    Nothing,\n    Just(T),\n}}\n\nenum Either[A, B] {{\n    L(A),\n    Neither,\n    R(B),\n}}\n\nstruct Cell[T] {{\n    tag: int32,\n    slot: Opt[T],\n}}\n\nfn fresh[T](tag: int32) -> Cell[T] {{\n    Cell {{ tag: tag, slot: Opt::Nothing }}\n}}\n\nfn main() -> unit {{\n{guse}    string_println(\"ok\")\n}}\n"))));
+
+        // ---- nested runtime types (every root carries inner tuples / arrays / refs; Vec and function types on the way)
+        let mut nvariants = String::new();
+        for i in 0..k {
+            let [a, b, c, d] = nest(i);
+            writeln!(nvariants, "    Na{n}({a}),\n    Nb{n}({b}),\n    Nc{n}({c}),\n    Nd{n}({d}),", n = ns[i]).unwrap();
+        }
+        fam.push(("nested-types", single(format!(
+            "enum Deep {{\n{nvariants}    Leaf,\n}}\n\nfn leaf() -> Deep {{\n    Deep::Leaf\n}}\n\nfn main() -> unit {{\n    let d = leaf();\n    let _ = d;\n    string_println(\"ok\")\n}}\n"))));
+
+        // ---- `dyn` traits, function types and `Vec`s that occur only in definitions (the collector of dyn requirements and the
+        //      type printer see them only through the definition tables), next to runtime types inside them
+        let mut traits = String::new();
+        let mut dvariants = String::new();
+        for i in 0..k {
+            writeln!(traits, "trait T{n} {{\n    fn m{n}(Self) -> int32;\n}}\n\nimpl T{n} for int32 {{\n    fn m{n}(self: int32) -> int32 {{\n        self + {i}\n    }}\n}}\n", n = ns[i]).unwrap();
+            writeln!(dvariants, "    Dy{n}(dyn T{n}),\n    Fn{n}((dyn T{n2}, {}) -> {}),\n    Ve{n}(Vec[(dyn T{n}, {})]),", tup(i), rf(i), arr(i), n = ns[i], n2 = ns[(i + 1) % k]).unwrap();
+        }
+        fam.push(("dyn-and-fn-types", single(format!(
+            "{traits}enum Slot {{\n    Empty,\n{dvariants}}}\n\nfn empty() -> Slot {{\n    Slot::Empty\n}}\n\nfn main() -> unit {{\n    let s = empty();\n    let _ = s;\n    string_println(int32_to_string(T{}::m{}(1)))\n}}\n", ns[0], ns[0]))));
+
+        // ---- one definition-only member per definition, spread over k enums and k structs (declared interleaved)
+        let mut defs = String::new();
+        let mut duse = String::new();
+        for i in 0..k {
+            writeln!(defs, "enum E{n} {{\n    Has{n}({}, {}),\n    No{n},\n}}\n\nstruct S{n} {{\n    e: E{n},\n    tag: int32,\n}}\n\nstruct U{n} {{\n    x: {},\n    y: {},\n}}\n", tup(i), rf(i), arr(i), tup((i + 1) % k), n = ns[i]).unwrap();
+            writeln!(duse, "    let s{i} = S{n} {{ e: E{n}::No{n}, tag: {i} }};\n    string_println(int32_to_string(s{i}.tag));", n = ns[i]).unwrap();
+        }
+        fam.push(("several-definitions", single(format!("{defs}fn main() -> unit {{\n{duse}}}\n"))));
+
+        // ---- k members of each kind only in definitions, k OTHER members of each kind also used by function bodies (those are
+        //      found by the walk over the bodies first); declared interleaved, the definition-only ones first
+        let tup_u = |i: usize| format!("({}, {}, int32, bool)", es[i % k], es[(i + 1) % k]);
+        let rf_u = |i: usize| format!("Ref[Vec[{}]]", es[i % k]);
+        let mut mvariants = String::new();
+        let mut muse = String::new();
+        for i in 0..k {
+            writeln!(mvariants, "    Tu{n}({}),\n    Rf{n}({}),\n    UsedTu{n}({}),\n    Ar{n}({}),\n    UsedRf{n}({}),", tup(i), rf(i), tup_u(k - 1 - i), arr(i), rf_u(k - 1 - i), n = ns[i]).unwrap();
+        }
+        for i in 0..k {
+            writeln!(muse, "    let r{i}: {} = ref(vec_new());\n    let _ = r{i};\n    let t{i}: {} = ({}, {}, {i}, true);\n    let _ = t{i};", rf_u(i), tup_u(i), lit_of(es[i % k]), lit_of(es[(i + 1) % k])).unwrap();
+        }
+        fam.push(("mixed-with-used", single(format!(
+            "enum Shape {{\n{mvariants}    Dot,\n}}\n\nfn origin() -> Shape {{\n    Shape::Dot\n}}\n\nfn main() -> unit {{\n{muse}    let s = origin();\n    let _ = s;\n    string_println(\"ok\")\n}}\n"))));
+
+        // ---- the definitions live in several files of the package
+        let mut files: Vec<(String, String)> = vec![("main.gom".to_string(), format!(
+            "package Main\n\nfn main() -> unit {{\n{}    string_println(\"ok\")\n}}\n",
+            (0..k).map(|i| format!("    let _ = mk_{}();\n", ns[i])).collect::<String>()))];
+        for i in 0..k {
+            files.push((format!("{}.gom", ns[i]), format!(
+                "package Main\n\nenum F{n} {{\n    None{n},\n    One{n}({}),\n    Two{n}({}, {}),\n}}\n\nfn mk_{n}() -> F{n} {{\n    F{n}::None{n}\n}}\n",
+                arr(i), rf(i), tup(i), n = ns[i])));
+        }
+        fam.push(("several-files", files));
+
+        // ---- the definitions live in k packages (whole-program compile and separate build + link)
+        let pk = ["Pz", "Pa", "Pm", "Pb", "Po", "Pg"];
+        let mut files: Vec<(String, String)> = Vec::new();
+        let mut main = String::from("package Main\n");
+        for p in pk.iter().take(k) {
+            writeln!(main, "import {p}").unwrap();
+        }
+        main.push_str("\nenum Local {\n    Off,\n");
+        for i in 0..k {
+            writeln!(main, "    On{}({}, {}),", ns[i], tup(k - 1 - i), rf(k - 1 - i)).unwrap();
+        }
+        main.push_str("}\n\nfn main() -> unit {\n    let l = Local::Off;\n    let _ = l;\n");
+        for (i, p) in pk.iter().take(k).enumerate() {
+            writeln!(main, "    let _ = {p}::none{p}();").unwrap();
+            files.push((format!("{p}/lib.gom"), format!(
+                "package {p}\n\nenum Opt{p}[T] {{\n    None{p},\n    Some{p}(T),\n}}\n\nenum E{p} {{\n    A{p}({}),\n    B{p},\n    C{p}({}, {}),\n}}\n\nstruct S{p} {{\n    e: E{p},\n    o: Opt{p}[{}],\n}}\n\nfn none{p}() -> S{p} {{\n    S{p} {{ e: E{p}::B{p}, o: Opt{p}::None{p} }}\n}}\n",
+                tup(i), arr(i), rf(i), nest(i)[1])));
+        }
+        main.push_str("    string_println(\"ok\")\n}\n");
+        files.insert(0, ("main.gom".to_string(), main));
+        fam.push(("several-packages", files));
+
+        for (name, files) in fam {
+            v.push(Project {
+                id: format!("emit-defonly-{}-{}", name, k),
+                kind: "emission-collections",
+                files,
+                tags: vec![format!("k={}", k), format!("family=defonly-{}", name), "definition-only".to_string()],
+            });
+        }
+    }
+    v
+}
+
+fn lit_of(ty: &str) -> &'static str {
+    match ty {
+        "string" => "\"s\"",
+        "int32" => "7",
+        "float64" => "1.5",
+        "bool" => "true",
+        "unit" => "()",
+        "int64" => "9i64",
+        _ => "0",
+    }
+}
+
 // ------------------------------------------------------------------------------------------------
 // generated multi-package projects
 
@@ -868,6 +1047,29 @@ pub fn digest(s: &str) -> String {
     format!("{:016x}{:016x}", h1.finish(), h2.finish())
 }
 
+/// the order of the declarations of a Go text: its column-0 lines (`type … struct {`, `func …(`, `import (`) and the lines
+/// of the import block — what a cross-process comparison of the emission-collections family keeps besides the digest
+pub fn go_skeleton(go: &str) -> String {
+    let mut out = String::new();
+    let mut in_import = false;
+    for line in go.lines() {
+        let c0 = line.chars().next();
+        if c0.is_some_and(|c| c.is_alphabetic() || c == '_') {
+            in_import = line.starts_with("import (");
+            out.push_str(line);
+            out.push('\n');
+        } else if in_import {
+            if line.starts_with(')') {
+                in_import = false;
+            } else {
+                out.push_str(line);
+                out.push('\n');
+            }
+        }
+    }
+    out
+}
+
 fn first_diff(x: &str, y: &str) -> String {
     // the top-level item the difference sits in: first word of the nearest line above (or at) it that starts in column 0
     let mut item = String::new();
@@ -1141,6 +1343,7 @@ fn all_projects(args: &util::Args) -> Vec<Project> {
     let mut ps = corpus_projects(quick, &mut rng);
     ps.extend(collection_diag_projects());
     ps.extend(emission_collection_projects());
+    ps.extend(emission_definition_only_projects());
     let ngen = args.n.unwrap_or(if quick { 40 } else { 240 });
     for i in 0..ngen {
         ps.push(gen_project(i, args.seed));
@@ -1172,6 +1375,9 @@ fn run_child(args: &util::Args) {
             writeln!(out, "{}\t{}\t{}\t{}", p.id, ch, digest(text), text.len()).unwrap();
             if p.kind == "collection-diagnostics" && *ch == "diagnostics" {
                 writeln!(listings, "{}\t{}", p.id, esc_line(text)).unwrap();
+            }
+            if p.kind == "emission-collections" && *ch == "go" {
+                writeln!(listings, "{}\t{}", p.id, esc_line(&go_skeleton(text))).unwrap();
             }
         }
     }
@@ -1215,7 +1421,12 @@ pub fn main(args: &util::Args) {
         // print what the compiler says about every program of the collection-diagnostics (`cdiag`) or
         // emission-collections (`emit`; add `--src` / `--go` for the sources / the Go text) family with k = --n
         let base = util::scratch_dir(if sub == Some("emit") { "c13-emit" } else { "c13-cdiag" });
-        for p in if sub == Some("emit") { emission_collection_projects() } else { collection_diag_projects() } {
+        let emit_all = || {
+            let mut e = emission_collection_projects();
+            e.extend(emission_definition_only_projects());
+            e
+        };
+        for p in if sub == Some("emit") { emit_all() } else { collection_diag_projects() } {
             if !p.tags.contains(&format!("k={}", args.n.unwrap_or(2))) {
                 continue;
             }
@@ -1342,6 +1553,13 @@ pub fn main(args: &util::Args) {
                     write!(srcs, "=== {}\n{}\n", rel, c).unwrap();
                 }
                 writeln!(cdiag_out, "{}\t{}\t{}", p.id, esc_line(t), esc_line(&srcs)).unwrap();
+            }
+            if p.kind == "emission-collections" && *ch == "go" {
+                let mut srcs = String::new();
+                for (rel, c) in &p.files {
+                    write!(srcs, "=== {}\n{}\n", rel, c).unwrap();
+                }
+                writeln!(cdiag_out, "{}\t{}\t{}", p.id, esc_line(&go_skeleton(t)), esc_line(&srcs)).unwrap();
             }
         }
         // first differing observation per channel
